@@ -148,7 +148,7 @@ func c16Run(t *testing.T, root string, T time.Duration, seq []int, allow bool) (
 	return
 }
 
-// ---- slow-drain family: an active client that takes its time to receive a large response ----
+// ---- bursts of 2 / 3 / 8 connections queued before the accept loop runs, each with its own deadline; slow-drain family: an active client that takes its time to receive a large response ----
 
 var c16DrainEvents = []string{"adv0.3", "adv0.55", "req", "drain4k", "drainall"}
 
@@ -250,7 +250,7 @@ func c16DrainRun(t *testing.T, root string, T time.Duration, seq []int, want []b
 func TestC16(t *testing.T) {
 	r := NewReporter(t)
 	defer r.Done()
-	r.Rule("T in {100 ms, 1 s, 10 min} x all event sequences of length <= depth over {advance 0.2T,0.5T,0.8T,1.0T,1.2T; deliver 1 byte; deliver rest of the 16-byte command; deliver half of the rest; deliver rest of request; deliver rest of request together with the next command's 16 bytes} over a cyclic script {Stat, OpenFile, WriteFile+payload (refused), OpenDir} and, with writing enabled, {CreateFile, WriteFile+1000-byte payload, Stat, WriteFile+10 bytes}; sequences are cut at the first close; oracle: close at exactly (instant the server started waiting for the current request)+T iff the request is incomplete then, never earlier or later; completed requests answered; handle ledger empty after the cut; slow-drain family: all sequences over {advance 0.3T/0.55T, issue 40000-byte critical read, take 4096 bytes, take all} through a 4096-byte send buffer with write deadlines modelled, never cut while requests are < T apart; distinct by (T, executed event prefix)")
+	r.Rule("T in {100 ms, 1 s, 10 min} x all event sequences of length <= depth over {advance 0.2T,0.5T,0.8T,1.0T,1.2T; deliver 1 byte; deliver rest of the 16-byte command; deliver half of the rest; deliver rest of request; deliver rest of request together with the next command's 16 bytes} over a cyclic script {Stat, OpenFile, WriteFile+payload (refused), OpenDir} and, with writing enabled, {CreateFile, WriteFile+1000-byte payload, Stat, WriteFile+10 bytes}; sequences are cut at the first close; oracle: close at exactly (instant the server started waiting for the current request)+T iff the request is incomplete then, never earlier or later; completed requests answered; handle ledger empty after the cut; bursts of 2 / 3 / 8 connections queued before the accept loop runs, each with its own deadline; slow-drain family: all sequences over {advance 0.3T/0.55T, issue 40000-byte critical read, take 4096 bytes, take all} through a 4096-byte send buffer with write deadlines modelled, never cut while requests are < T apart; distinct by (T, executed event prefix)")
 	w := newWorld(t, "srv/root")
 	defer w.Cleanup()
 	w.File("a.txt", 10, 1)
@@ -417,6 +417,81 @@ func TestC16(t *testing.T) {
 				idx = (idx/blk + 1) * blk
 			} else {
 				idx++
+			}
+		}
+	}
+	// connections that arrive in a burst (all queued before the accept loop gets to run): every one of them has its
+	// own deadline - silent ones are cut at exactly T, the ones that sent a request at 0.5T at exactly 1.5T
+	for ti, T := range []time.Duration{100 * time.Millisecond, 10 * time.Minute} {
+		for _, n := range []int{2, 3, 8} {
+			if !r.Mine(4000 + ti*10 + n) {
+				continue
+			}
+			var why string
+			synctest.Test(t, func(t *testing.T) {
+				s := startSrv(SrvOpts{Root: w.Root, Timeout: T})
+				start := time.Now()
+				var cs []*Conn
+				for i := 0; i < n; i++ {
+					cs = append(cs, s.Dial(nil))
+				}
+				synctest.Wait()
+				time.Sleep(T / 2)
+				synctest.Wait()
+				for i, c := range cs {
+					if c.ServerClosed() {
+						why = sprintf("connection %d of a burst of %d was closed at %v, before its deadline %v", i, n, c.ClosedAt().Sub(start), T)
+					}
+					if i%2 == 1 {
+						c.Send(mkReq(opStatFile, "/a.txt").Encode())
+					}
+				}
+				synctest.Wait()
+				for i, c := range cs {
+					if got := c.Take(); i%2 == 1 && len(got) != szStat && why == "" {
+						why = sprintf("connection %d of a burst of %d sent a request at 0.5T and got %d bytes back", i, n, len(got))
+					}
+				}
+				time.Sleep(T/2 + T/10)
+				synctest.Wait()
+				for i, c := range cs {
+					want := T
+					if i%2 == 1 {
+						want = T + T/2
+					}
+					if i%2 == 0 && why == "" {
+						if !c.ServerClosed() {
+							why = sprintf("silent connection %d of a burst of %d is still open at 1.1T (T=%v): it was never given a deadline", i, n, T)
+						} else if c.ClosedAt().Sub(start) != want {
+							why = sprintf("silent connection %d of a burst of %d was closed at %v, its deadline is %v", i, n, c.ClosedAt().Sub(start), want)
+						}
+					}
+					if i%2 == 1 && c.ServerClosed() && why == "" {
+						why = sprintf("connection %d of a burst of %d sent a request at 0.5T and was cut at %v, before its deadline %v", i, n, c.ClosedAt().Sub(start), want)
+					}
+				}
+				time.Sleep(T / 2)
+				synctest.Wait()
+				for i, c := range cs {
+					if i%2 == 1 && why == "" {
+						if !c.ServerClosed() {
+							why = sprintf("connection %d of a burst of %d (last request at 0.5T) is still open at 1.6T", i, n)
+						} else if c.ClosedAt().Sub(start) != T+T/2 {
+							why = sprintf("connection %d of a burst of %d (last request at 0.5T) was closed at %v, its deadline is %v", i, n, c.ClosedAt().Sub(start), T+T/2)
+						}
+					}
+				}
+				s.Shutdown()
+			})
+			key := sprintf("burst|%v|%d", T, n)
+			r.Transition(int64(3 * n))
+			r.Eval(1)
+			r.State(key)
+			r.Nontrivial(key)
+			if why != "" {
+				r.Violation("C16:burst", sprintf("T=%v: %s", T, why), map[string]any{"T": T.String(), "connections": n})
+			} else {
+				r.Outcome("burst-ok")
 			}
 		}
 	}
